@@ -68,11 +68,11 @@ claim("C14", "model_checking", "enum",
       "Every collected record and every one/two-field boundary mutation reloads byte- and field-identically; the bbolt store is equivalent to a map for all operation sequences up to depth 4.",
       ENUMNOTE, "DESIGN.md §5 C14")
 claim("C21", "model_checking", "enum",
-      "bounded-exhaustive enumeration of message field values through the real marshaller, and of (type string x payload) junk delivered to a real SwapService in every state of the honest runs",
+      "bounded-exhaustive enumeration of message field values through the real marshaller, and of (type string x payload) junk delivered to a real SwapService in every state of the honest runs (incl. well-formed messages followed by trailing bytes) ; every ordered pair (message handed to the real RedundantMessenger, message encoded afterwards): the copies sent later must still be the payload of the first",
       "All message values over the field alphabets keep their protocol number and round-trip; every junk (type, payload) pair in every state leaves all swaps unchanged and does not panic.",
       ENUMNOTE + "; receiving side runs on the simulated world of the fsmx engine", "DESIGN.md §5 C21")
 claim("C24", "model_checking", "enum",
-      "cartesian-product enumeration of invoices x channel ids x limits through the real CLN route builder, the real LND request builder and the real lnd.Client payment path over fake gRPC clients",
+      "cartesian-product enumeration of invoices x channel ids x limits through the real CLN route builder, the real LND request builder and the real lnd.Client payment path over fake gRPC clients ; channel ids include ones whose components overflow their 24/24/16-bit fields onto an existing channel",
       "Exhaustive over the stated grids; the produced route / SendPaymentRequest is compared with the single-hop / single-part / swap-channel predicate of the statement.",
       ENUMNOTE + "; fake lnrpc / routerrpc clients", "DESIGN.md §5 C24")
 claim("C25", "model_checking", "enum",
@@ -125,11 +125,11 @@ claim("C03", "model_checking", "enum",
       "Every spend the adapters build for every enumerated opening transaction is checked for outpoint, script acceptance, BIP68 maturity edge, single own output and value conservation; exhaustive for the stated alphabets.",
       ENUMNOTE + "; fake lnd gRPC clients / fake wallet.Wallet building real Elements transactions", "DESIGN.md §5 C03")
 claim("C08", "model_checking", "enum",
-      "cartesian-product enumeration of funding results x amounts x premiums x chains / back-ends x maker roles through the real CreateAndBroadcastOpeningTransaction with the real wallet adapters",
+      "cartesian-product enumeration of funding results x amounts x premiums x chains / back-ends x maker roles through the real CreateAndBroadcastOpeningTransaction with the real wallet adapters ; environment answer: elementsd refuses the first broadcast (-26) and funds the next transaction with another output layout",
       "The announced message is compared with the transaction actually handed to the chain (txid, index of the swap output, invoice amount / hash / expiry / CLTV, blinding key) for every enumerated case.",
       ENUMNOTE + "; fake lnd gRPC / fake elementsd RpcClient", "DESIGN.md §5 C08")
 claim("C11", "model_checking", "enum",
-      "cartesian-product enumeration of request fields x policy / configuration through the real request handlers with the real policy.Policy and premium.Setting; big-integer reference admission predicate",
+      "cartesian-product enumeration of request fields x policy / configuration through the real request handlers with the real policy.Policy and premium.Setting; big-integer reference admission predicate ; every case is run twice, alone and after an earlier refused request of the same peer for the same channel: the verdicts must agree",
       "Full product over the interacting dimensions and all single / pairwise deviations of the others; the first reply (agreement vs cancel) is compared with the conjunction in the statement.",
       E1NOTE, "DESIGN.md §5 C11")
 claim("C12", "model_checking", "enum",
